@@ -22,3 +22,8 @@ UNITS += [
        defines=["H_LAPOUT"], unwindset=["mk_vd.0:3", "mk_vd.1:9"], reach=3, objbits=8, assumed=SM_ASSUMED,
        note="lapout: marks move together (unwrap, then short/long padding shift), exposes n1+n-returned samples that lie inside the row, for every block-size pair, window history and both rates"),
 ]
+UNITS += [
+  Unit("blk_alloc", ["C02", "C11", "C13"], "lib/block.c", enforce="_vorbis_block_alloc", loops="block_synth.loops", harness="h_blk_arena.c", entry="h_blk_alloc",
+       reach=3, timeout=600, objbits=8, no_overflow=False,
+       note="block-local arena: the region handed out lies inside the store and holds the requested bytes; regions handed out earlier stay allocated (the old store is parked on the reap chain and accounted, never freed here); top stays word aligned and within the store"),
+]
